@@ -1,0 +1,21 @@
+//go:build verif && verif_rolling
+
+package strategy
+
+import (
+	"time"
+
+	corev1 "k8s.io/api/core/v1"
+
+	datadoghqv1alpha1 "github.com/DataDog/extendeddaemonset/api/v1alpha1"
+)
+
+// CalculateMaxCreationForVerif exposes the slow-start ramp at exact instants.
+func CalculateMaxCreationForVerif(params *datadoghqv1alpha1.ExtendedDaemonSetSpecStrategyRollingUpdate, nbNodes int, rsStartTime, now time.Time) (int, error) {
+	return calculateMaxCreation(params, nbNodes, rsStartTime, now)
+}
+
+// CompareCurrentPodWithNewPodForVerif exposes the up-to-date comparison.
+func CompareCurrentPodWithNewPodForVerif(params *Parameters, pod *corev1.Pod, node *NodeItem) bool {
+	return compareCurrentPodWithNewPod(params, pod, node)
+}
